@@ -14,7 +14,7 @@ use serde_json::{json, Value};
 use std::collections::{BTreeMap, BTreeSet};
 use std::io::Write;
 
-fn name_of(v: &Value) -> String {
+pub fn name_of(v: &Value) -> String {
     let mut bytes = vec![];
     for ch in arr(v) {
         for b in arr(&ch) {
@@ -25,7 +25,7 @@ fn name_of(v: &Value) -> String {
 }
 
 /// Scenario (for the Builder / JAX / encoder paths) from an abstract ontology value `o` (file order)
-fn scenario_of(o: &Value) -> Scenario {
+pub fn scenario_of(o: &Value) -> Scenario {
     let mut s = Scenario::default();
     let ver = u32_list(&o["version"]);
     s.version = (ver[0] as u16, ver[1] as u8, ver[2] as u8);
@@ -56,7 +56,7 @@ fn scenario_of(o: &Value) -> Scenario {
 }
 
 /// Expected projection from the spec's `expect` (semantic part) and `ro` (names, flags, version)
-fn expected_of(ro: &Value, expect: &Value) -> Expected {
+pub fn expected_of(ro: &Value, expect: &Value) -> Expected {
     let mut e = Expected::default();
     let ver = u32_list(&ro["version"]);
     e.version = (ver[0] as u16, ver[1] as u8, ver[2] as u8);
